@@ -768,7 +768,12 @@ def int_method(I, x, name, args, node):
         return int_from_z(-xz, w, s)
     if name == "is_multiple_of":
         bz = a[0].z()
-        return simp(z3.If(bz == 0, xz == 0, z3.URem(xz, bz) == 0))
+        if x.conc and a[0].conc:
+            return (x.v == 0) if a[0].v == 0 else (x.v % a[0].v == 0)
+        # symbolic: an uninterpreted predicate (64-bit urem by a constant stalls bit-blasting and nothing in the
+        # encoded kernels depends on its arithmetic meaning: it only gates profiling output)
+        f = z3.Function(f"IS_MULTIPLE_OF_{w}", z3.BitVecSort(w), z3.BitVecSort(w), z3.BoolSort())
+        return f(xz, bz)
     if name in ("eq", "ne"):
         c = I.eq_values(x, a[0], node)
         return c if name == "eq" else b_not(c)
